@@ -8,7 +8,7 @@ from vf.ob import obligation, shard, finding_open
 from tartiflette import TartifletteError
 
 META = {
-    "bounds": "2-3 requests in flight on one engine (same and different documents from a pool of 8 incl. two refused ones, per-request variables/context: unbounded ints, Booleans), <= 2 gated resolvers "
+    "bounds": "2-3 requests in flight on one engine (same and different documents from a pool of 10 incl. two refused ones and two that wait on one application-wide awaitable, per-request variables/context: unbounded ints, Booleans), <= 2 gated resolvers "
               "per request, every completion order across the requests (<= 90), per-request fault selector; then a probe request compared with a never-shared engine",
     "outside": "more than 3 concurrent requests; more than 2 suspending resolvers per request",
     "explanation": "Each response of the concurrent run must equal the response of the same request run alone (FIFO) on the same engine; the shared cached document and the schema must stay read-only.",
@@ -23,9 +23,23 @@ MODULE_ERR = [None]       # one error instance shared by every request of a run 
 LOG = []
 
 
+SHARED = {}
+
+
+async def shared_wait(key):
+    """an application-wide awaitable (a dataloader's future for a key): every resolver of every request that asks for the key awaits the SAME future"""
+    fut = SHARED.get(key)
+    if fut is None:
+        fut = asyncio.get_running_loop().gate(("shared", key))
+        SHARED[key] = fut
+    await fut
+
+
 async def cresolver(parent, args, ctx, info):
     p = tuple(info.path.as_list())
     LOG.append((ctx["id"], p, args))
+    if p in ctx.get("shared", ()):
+        await shared_wait("dl")
     if p in ctx["gates"]:
         await miniloop.gate((ctx["id"], p))
     f = ctx["faults"].get(p)
@@ -70,7 +84,10 @@ POOL = [
     ("{ nope whoami }", []),                                   # refused by validation: the errors live with the cached document
     ("{ ...UF } fragment UF on Query { n ...EX } fragment EX on Query { nn ...UF }", []),        # refused: fragment cycle
     ("{ mid { n } ...UF } fragment UF on Query { ...EX whoami } fragment EX on Query { nn }", [("nn",)]),   # valid, same fragment names as the cyclic one
+    ("{ whoami nn n }", [("nn",)]),          # `whoami` waits on the application-wide awaitable; `nn` is the non-null field that may fail
+    ("{ n whoami }", []),                    # another request waiting on the same awaitable
 ]
+SHARED_AT = {8: {("whoami",)}, 9: {("whoami",)}}
 REFUSED_DOCS = (5, 6)
 LEAF = {"n": 3}
 MID = {"n": 2, "leaf": LEAF, "leaves": [LEAF, {"n": 4}]}
@@ -91,7 +108,7 @@ def request(i, doc, v, s, fault, opsel, ng=2):
     faults = {}
     if fault and gates:
         faults[gates[-1]] = fault
-    ctx = {"id": "r%d" % i, "gates": set(gates), "faults": faults}
+    ctx = {"id": "r%d" % i, "gates": set(gates), "faults": faults, "shared": SHARED_AT.get(doc, ())}
     variables = {"v": v, "s": s}
     op = None
     if doc == 4:
@@ -122,6 +139,7 @@ def norm(r):
 
 for _d in range(len(POOL)):
     for _e in (ENG, ENG_SEQ, FRESH):
+        SHARED.clear()
         run_one(_e, request(0, _d, 1, True, 0, True))
 
 
@@ -131,7 +149,7 @@ def is_f7(faults):
     return sum(1 for f in faults if f == 3) >= 2
 
 
-PAIRS = [(0, 0), (1, 1), (2, 2), (0, 3), (4, 4), (1, 3), (2, 1), (3, 3), (5, 5), (5, 0), (6, 7), (7, 6)]     # (3, 3): byte-identical requests that differ only by their context
+PAIRS = [(0, 0), (1, 1), (2, 2), (0, 3), (4, 4), (1, 3), (2, 1), (3, 3), (5, 5), (5, 0), (6, 7), (7, 6), (8, 9), (9, 8)]     # (3, 3): byte-identical requests that differ only by their context
 TRIPLES = [(0, 0, 3), (1, 1, 1), (4, 0, 1)]
 
 
@@ -139,7 +157,7 @@ FAULTS = [(0, 0), (1, 0), (2, 1), (0, 2), (3, 0), (3, 3)]
 SH15 = [{"docs": list(p), "f": list(f), "ng": ng} for ng in (1, 2) for p in PAIRS for f in FAULTS] + [{"docs": list(t), "f": list(f), "ng": 1} for t in TRIPLES for f in FAULTS[:3]]
 # the same on an engine that coerces lists and parents sequentially (documents with lists)
 SH15 += [{"docs": list(p), "f": list(f), "ng": 1, "seq": True} for p in ((2, 2), (2, 1), (1, 3), (2, 0)) for f in ((0, 0), (1, 0))]
-QUICK15 = [i for i, s in enumerate(SH15) if s.get("seq") and s["f"] == [0, 0] and s["docs"] in ([2, 2], [2, 1])] + [i for i, s in enumerate(SH15) if not s.get("seq") and s["ng"] == 1 and len(s["docs"]) == 2 and ((s["f"] == [0, 0] and s["docs"] in ([0, 0], [1, 1], [2, 2], [4, 4], [0, 3], [3, 3], [5, 5], [5, 0], [6, 7], [7, 6])) or (s["docs"] == [0, 3] and s["f"] in ([2, 1], [3, 3])) or (s["docs"] == [1, 3] and s["f"] == [1, 0]))]
+QUICK15 = [i for i, s in enumerate(SH15) if s.get("seq") and s["f"] == [0, 0] and s["docs"] in ([2, 2], [2, 1])] + [i for i, s in enumerate(SH15) if not s.get("seq") and s["ng"] == 1 and len(s["docs"]) == 2 and ((s["f"] == [0, 0] and s["docs"] in ([0, 0], [1, 1], [2, 2], [4, 4], [0, 3], [3, 3], [5, 5], [5, 0], [6, 7], [7, 6])) or (s["docs"] == [0, 3] and s["f"] in ([2, 1], [3, 3])) or (s["docs"] == [1, 3] and s["f"] == [1, 0]) or (s["docs"] == [8, 9] and s["f"] in ([1, 0], [0, 0])) or (s["docs"] == [9, 8] and s["f"] == [0, 2]))]
 
 
 @obligation(tier="quick", timeout=300, thorough_timeout=1500, shards=SH15, quick_shards=QUICK15,
@@ -164,6 +182,7 @@ def c15_concurrent(c0: int, c1: int, c2: int, c3: int, c4: int, c5: int, v0: int
     MODULE_ERR[0] = MyErr("module-level", extensions={"code": 1})
     eng = ENG_SEQ if shard().get("seq") else ENG
     data = fresh_data()
+    SHARED.clear()
 
     def chooser(n):
         x = cs[k[0]] if k[0] < len(cs) else 0
@@ -180,6 +199,7 @@ def c15_concurrent(c0: int, c1: int, c2: int, c3: int, c4: int, c5: int, v0: int
     if not ok:
         return verdict(False)
     for i, req in enumerate(reqs):
+        SHARED.clear()
         ok2, solo = safe(lambda: run_one(eng, req))
         observe(("solo", i, solo))
         if not ok2 or norm(got[i]) != norm(solo):
@@ -198,10 +218,12 @@ def c15_concurrent(c0: int, c1: int, c2: int, c3: int, c4: int, c5: int, v0: int
                 return verdict(False)
     # afterwards: a probe request behaves as on an engine that never saw the traffic
     probe = request(9, docs[0], 5, False, 0, True)
+    SHARED.clear()
     ok3, p1 = safe(lambda: run_one(eng, probe))
     # the application's own objects (what the resolvers returned, lists included) are exactly as before the traffic
     intact = data == PRISTINE
     fresh_data()
+    SHARED.clear()
     ok4, p2 = safe(lambda: run_one(FRESH, probe))
     observe(("probe", p1, p2, intact))
     return verdict(intact and ok3 and ok4 and norm(p1) == norm(p2) and not loop.pending and all(t.done() for t in loop.tasks))
